@@ -278,6 +278,83 @@ def div_lemmas(D, M):
     }
 
 
+IMUL = z3.Function("imul", z3.IntSort(), z3.IntSort(), z3.IntSort())
+
+
+def _split_const(t):
+    """t == c * rest with an integer literal c (1 if none)"""
+    t = z3.simplify(t)
+    if z3.is_int_value(t):
+        return t.as_long(), None
+    if z3.is_mul(t):
+        ch = t.children()
+        c = 1
+        rest = []
+        for x in ch:
+            if z3.is_int_value(x):
+                c *= x.as_long()
+            else:
+                rest.append(x)
+        if len(rest) == 1:
+            return c, rest[0]
+        if not rest:
+            return c, None
+        r = rest[0]
+        for x in rest[1:]:
+            r = imul(r, x)
+        return c, r
+    return 1, t
+
+
+def imul(a, b):
+    """product of two integer terms with literal factors pulled out and symbolic*symbolic kept behind IMUL"""
+    ca, ra = _split_const(a)
+    cb, rb = _split_const(b)
+    c = ca * cb
+    if ra is None and rb is None:
+        return z3.IntVal(c)
+    if ra is None:
+        return c * rb if c != 1 else rb
+    if rb is None:
+        return c * ra if c != 1 else ra
+    if z3.is_add(ra) or z3.is_add(rb):
+        # distribute over sums so that (k + 1) * R and k * R + R meet
+        if z3.is_add(ra):
+            t = z3.Sum([imul(x, rb) for x in ra.children()])
+        else:
+            t = z3.Sum([imul(ra, x) for x in rb.children()])
+        return c * t if c != 1 else t
+    x, y = (ra, rb) if ra.get_id() <= rb.get_id() else (rb, ra)
+    t = IMUL(x, y)
+    return c * t if c != 1 else t
+
+
+def mul_lemmas(M):
+    x, y, z = z3.Ints("ml.x ml.y ml.z")
+    two = [M(x, y), M(z, y)]
+    twob = [M(y, x), M(y, z)]
+    return [x, y, z], {
+        "mul-nonneg": (z3.Implies(z3.And(x >= 0, y >= 0), M(x, y) >= 0), [[M(x, y)]]),
+        "mul-zero": (z3.Implies(z3.Or(x == 0, y == 0), M(x, y) == 0), [[M(x, y)]]),
+        "mul-one": (z3.And(z3.Implies(x == 1, M(x, y) == y), z3.Implies(y == 1, M(x, y) == x)), [[M(x, y)]]),
+        "mul-monotone-left": (z3.Implies(z3.And(y >= 0, x <= z), M(x, y) <= M(z, y)), [two]),
+        "mul-monotone-right": (z3.Implies(z3.And(y >= 0, x <= z), M(y, x) <= M(y, z)), [twob]),
+        "mul-strict-left": (z3.Implies(z3.And(y >= 1, x < z), M(x, y) + y <= M(z, y)), [two]),
+        "mul-strict-right": (z3.Implies(z3.And(y >= 1, x < z), M(y, x) + y <= M(y, z)), [twob]),
+        "mul-pos": (z3.Implies(z3.And(x >= 1, y >= 1), z3.And(M(x, y) >= x, M(x, y) >= y)), [[M(x, y)]]),
+    }
+
+
+def mul_axioms():
+    vs, lems = mul_lemmas(IMUL)
+    out = []
+    for f, pats in lems.values():
+        ps = [z3.MultiPattern(*p) if len(p) > 1 else p[0] for p in pats]
+        used = [v for v in vs if _occurs(v, f)]
+        out.append(z3.ForAll(used, f, patterns=ps))
+    return out
+
+
 def div_axioms():
     vs, lems = div_lemmas(FDIV, FMOD)
     out = []
@@ -399,6 +476,8 @@ def arith(op, a, b):
     if op == "-":
         return wrap(x - y)
     if op == "*":
+        if ABSTRACT_NL[0] and not z3.is_int_value(x) and not z3.is_int_value(y):
+            return wrap(imul(x, y))
         return wrap(x * y)
     if op in ("//", "%") and ABSTRACT_NL[0] and not z3.is_int_value(y):
         return wrap(FDIV(x, y) if op == "//" else FMOD(x, y))
@@ -477,7 +556,7 @@ class SSeq(Sym):
     @staticmethod
     def fresh(prefix, kind="ndarray", ekind="real", length=None, opt=False):
         n = fresh(prefix)
-        srt = {"int": z3.IntSort(), "real": z3.RealSort(), "bool": z3.BoolSort()}[ekind]
+        srt = {"int": z3.IntSort(), "real": z3.RealSort(), "bool": z3.BoolSort(), "opaque": z3.IntSort()}[ekind]
         arr = z3.Const(n, z3.ArraySort(z3.IntSort(), srt))
         if length is None:
             length = SInt(z3.Int(n + ".len"))
@@ -485,6 +564,8 @@ class SSeq(Sym):
         return SSeq(length, arr, kind, ekind, none, n)
 
     def get(self, i):
+        if self.ekind == "opaque":
+            return SOpaque("elem")
         v = wrap(z3.Select(self.arr, tz(i)))
         if self.none is not None:
             return SOpt(wrap(z3.Select(self.none, tz(i))), v)
